@@ -17,6 +17,11 @@ WORK = os.path.join(VERIF, ".work")
 MIRFACTS_BIN = os.path.join(VERIF, "engines", "mirfacts", "target", "debug", "mirfacts")
 SRCFACTS_BIN = os.path.join(VERIF, "engines", "srcfacts", "target", "debug", "srcfacts")
 
+# debug-assertions off: no compiler-inserted pointer-alignment/null checks in MIR (they are
+# instrumentation, not program behaviour); overflow checks stay on so that arithmetic panics
+# remain visible as Assert terminators.
+RUSTFLAGS = "-Zmir-opt-level=0 -Awarnings -Cdebug-assertions=off -Coverflow-checks=on"
+
 ALL_FEATURES = ["std", "serde", "decode", "bit-vec", "schema", "docs", "derive"]
 
 
@@ -78,6 +83,7 @@ def tree_hash():
     if _tree_hash is None:
         h = hashlib.sha256()
         h.update(REPO.encode())
+        h.update(RUSTFLAGS.encode())
         for f in _relevant_files(REPO):
             p = os.path.join(REPO, f)
             try:
@@ -159,7 +165,7 @@ def ensure_mir_facts(features, slot=None, want_derive=False):
         env = dict(os.environ)
         env.update({
             "LD_LIBRARY_PATH": os.path.join(nightly_sysroot(), "lib"),
-            "RUSTFLAGS": "-Zmir-opt-level=0 -Awarnings",
+            "RUSTFLAGS": RUSTFLAGS,
             "RUSTC_WORKSPACE_WRAPPER": MIRFACTS_BIN,
             "MIRFACTS_OUT": out,
             "MIRFACTS_TAG": tree_hash(),
